@@ -1,6 +1,20 @@
 """Configuration of ./check C07 (see lib/registry.py for the fields)."""
-DEBUG = dict(
-    claim="debug", props="Props/C08.v", theorems=[],
+CFG = dict(
+    claim="Theorems of coq/Props/C07.v over ALL runs of the client model Model/Client.v (any peer, any interleaving): C07_caller_unblocked (Q: in "
+          "every quiescent state an open stream whose context is done has a dead loop, is done and unregistered and has no RecvMsg / SendMsg / "
+          "CloseSend / Header / Trailer blocked), C07_after_done (along every continuation every later RecvMsg returns the stream's terminal "
+          "error and every SendMsg fails with it), C07_reset_once / C07_reset_owner (at most one reset per stream, only for a stream whose loop "
+          "has ended without a received trailer because of an abort or a done context, none for any other id), C07_status_reset (a done stream "
+          "whose terminal error is the Canceled / DeadlineExceeded status and that received no trailer has exactly one reset on the wire unless "
+          "writes fail); and of the server model Model/Server.v: C07_reset_cancels (after the read loop has read a reset for a registered "
+          "stream its handler context is done in every later state), C07_handler_unblocks (Q: a handler whose context is done is parked in no "
+          "operation), C07_no_orphan_partial (Q: with the read loop at its Read everything delivered has been read). C07_recv_refuted: the "
+          "strict 'every receive after the cancellation returns the context status' is false of the model (respChan closed race). Findings: "
+          "reset-behind-backpressure (no_orphan fails while a non-reading handler's full queue holds the read loop). Both models are tied "
+          "lock-step to the real code (client: every run of this check, all orders of internal rules; server: ./check SV).",
+    props="Props/C07.v",
+    theorems=["C07_caller_unblocked", "C07_after_done", "C07_reset_once", "C07_reset_owner", "C07_status_reset", "C07_reset_cancels",
+              "C07_handler_unblocks", "C07_no_orphan_partial", "C07_recv_refuted"],
     imports=["Model.Client", "Check.ClientC", "Model.Protocol", "Check.CwC", "Check.C07c"],
     case_type="cwcase", find_bad_from="find_bad_from", go_tags="cw",
     rigs=[dict(test="TestC07", timeout_quick=600, timeout_thorough=2400)],
@@ -10,4 +24,15 @@ DEBUG = dict(
                  "4": "reset rule broken: no reset although no trailer had been received, more than one, for another id, or after a received trailer",
                  "5": "the handler's context is still live at a quiescent point after the reset reached the server's transport (or at the end, with everything delivered, a handler is left with a live context although its caller has gone)",
                  "6": "the run wedged: a goroutine waits for a mutex for ever (watchdog)"},
-    rule="debug")
+    rule="end-to-end lock-step in synctest bubbles (real client - two held FIFO wires - real server; user and handler programs are data): "
+         "37 base traces (bidi / server-stream / client-stream conversations of C02: n requests x m responses, eager / queued-unread reads, "
+         "ping-pong with pending receives, handler closing first, headers and trailers, error returns, request bursts) and for EACH a "
+         "cancellation after EVERY prefix of its schedule, by explicit cancel AND by deadline expiry on the virtual clock, with no other call / "
+         "another open stream / a unary call in flight (quick: the other-call configuration alternates by position; thorough: full product); "
+         "after the cancellation: wires drained, RecvMsg, SendMsg, RecvMsg, CloseSend by the caller, the handler awaits its context, sends, "
+         "returns; the other call is then completed. Judged: client half against Model/Client.v (all orders), status codes of RecvMsg/SendMsg "
+         "(Canceled vs DeadlineExceeded exactly), pending operations, reset envelopes on the tap (count, id, owner), handler context at every "
+         "quiescent point after the reset reached the server, orphans at the end; plus 40 free-running attempts at the cancel-then-send race",
+    assumptions=["payloads, metadata, methods and names are opaque tokens for client and server",
+                 "the transport checks the context of a Write (Endpoint.CheckCtx); wires are FIFO and lossless (C19 for the shipped transports)",
+                 "'becomes done' is observed at quiescence (testing/synctest durable blocking); latency is not a property of the model"])
